@@ -86,6 +86,7 @@ type DocVal struct {
 	InPort    *int             `json:"in_port,omitempty"`
 	PInHost   *string          `json:"p_in_host,omitempty"`
 	PInPort   *int             `json:"p_in_port,omitempty"`
+	PInEmpty  bool             `json:"p_in_empty,omitempty"` // the p_in section is present but sets nothing: a pointer to the zero struct, not nil
 	IP        *string          `json:"ip,omitempty"`
 	Peers     []PeerVal        `json:"peers,omitempty"`
 	Alt       *string          `json:"alt,omitempty"`
@@ -192,6 +193,9 @@ func (g *gen) docVal(p int) DocVal {
 	}
 	if g.pct(p / 2) {
 		v.PInPort = ip(2000 + n)
+	}
+	if v.PInHost == nil && v.PInPort == nil && g.pct(p/3) {
+		v.PInEmpty = true
 	}
 	if g.pct(p) {
 		v.IP = sp(fmt.Sprintf("10.1.%d.%d", n%250, (n*7)%250))
@@ -329,7 +333,7 @@ func (v *DocVal) expected(def *DocVal) *CfgDoc {
 		if l.InPort != nil {
 			c.In.Port = *l.InPort
 		}
-		if l.PInHost != nil || l.PInPort != nil {
+		if l.PInHost != nil || l.PInPort != nil || l.PInEmpty {
 			if c.PIn == nil {
 				c.PIn = &DocIn{}
 			}
@@ -602,7 +606,7 @@ func (v *DocVal) renderDoc(format string) string {
 		if len(in) > 0 {
 			all = append(all, kv{"in", obj(in, ", ", "{", "}", ": ", true)})
 		}
-		if len(pin) > 0 {
+		if len(pin) > 0 || v.PInEmpty {
 			all = append(all, kv{"p_in", obj(pin, ", ", "{", "}", ": ", true)})
 		}
 		if v.Peers != nil {
@@ -626,7 +630,7 @@ func (v *DocVal) renderDoc(format string) string {
 		if len(in) > 0 {
 			fmt.Fprintf(&b, "in: %s\n", obj(in, ", ", "{", "}", ": ", false))
 		}
-		if len(pin) > 0 {
+		if len(pin) > 0 || v.PInEmpty {
 			fmt.Fprintf(&b, "p_in: %s\n", obj(pin, ", ", "{", "}", ": ", false))
 		}
 		if v.Peers != nil {
@@ -661,7 +665,7 @@ func (v *DocVal) renderDoc(format string) string {
 				fmt.Fprintf(&b, "%s = %s\n", e.k, e.v)
 			}
 		}
-		if len(pin) > 0 {
+		if len(pin) > 0 || v.PInEmpty {
 			b.WriteString("[p_in]\n")
 			for _, e := range pin {
 				fmt.Fprintf(&b, "%s = %s\n", e.k, e.v)
@@ -1026,7 +1030,7 @@ func (r *streamRun) checkUnset(format string, val reflect.Value, v *DocVal, doc 
 	want := map[string]bool{
 		"Name": v.Name == nil, "Count": v.Count == nil, "Ratio": v.Ratio == nil, "On": v.On == nil, "Wait": v.WaitNS == nil,
 		"When": v.When == nil, "Tags": v.Tags == nil, "Nums": v.Nums == nil, "Limits": v.Limits == nil, "Set": v.Set == nil,
-		"In": v.InHost == nil && v.InPort == nil, "PIn": v.PInHost == nil && v.PInPort == nil, "IP": v.IP == nil, "Peers": v.Peers == nil, "Alt": v.Alt == nil, "Waits": v.WaitsNS == nil, "Timeouts": v.TimeoutNS == nil,
+		"In": v.InHost == nil && v.InPort == nil, "PIn": v.PInHost == nil && v.PInPort == nil && !v.PInEmpty, "IP": v.IP == nil, "Peers": v.Peers == nil, "Alt": v.Alt == nil, "Waits": v.WaitsNS == nil, "Timeouts": v.TimeoutNS == nil,
 		"DocEmb": v.EmbN == nil && v.EmbS == nil, "Whens": v.Whens == nil, "PWaits": v.PWaitsNS == nil,
 	}
 	names := make([]string, 0, len(want))
